@@ -168,6 +168,49 @@ pub fn gen_number_phrase(rng: &mut Rng, p: &Pool, out: &mut Vec<&'static str>) {
     }
 }
 
+/// Agglutinated number words for the languages that write numbers as one word
+/// (de, nl, it): units+hundreds, tens, ordinals glued together, as a single token.
+pub fn gen_compound(rng: &mut Rng, p: &Pool) -> String {
+    let mut s = String::new();
+    match p.code {
+        "de" | "nl" => {
+            let conj = if p.code == "de" { "und" } else { "en" };
+            if rng.chance(1, 2) {
+                s.push_str(rng.word(p.units));
+                s.push_str(rng.word(p.hundreds));
+            }
+            if rng.chance(1, 2) {
+                s.push_str(rng.word(p.units));
+                s.push_str(conj);
+                s.push_str(rng.word(p.tens));
+            } else {
+                s.push_str(rng.word(p.teens));
+            }
+            if rng.chance(1, 3) {
+                s.push_str(rng.word(p.mults));
+            }
+            if rng.chance(1, 3) {
+                s.push_str(if p.code == "de" { "ste" } else { "ste" });
+            }
+        }
+        "it" => {
+            if rng.chance(1, 2) {
+                s.push_str(rng.word(&["due", "tre", "quattro", "cinque", "sei", "sette", "otto", "nove"]));
+            }
+            s.push_str(rng.word(&["cento", "mila", "cento", "venti", "trenta", "quaranta", "novanta", "centesimo", "millesimo", "ventesimo", "milionesimo"]));
+            if rng.chance(1, 2) {
+                s.push_str(rng.word(&["due", "tre", "quattro", "cinque", "sei", "sette", "nove", "dieci", "venti", "esimo", "esima"]));
+            }
+        }
+        _ => {
+            s.push_str(rng.word(p.tens));
+            s.push('-');
+            s.push_str(rng.word(p.units));
+        }
+    }
+    s
+}
+
 fn case_variant(rng: &mut Rng, w: &str, upper_pct: u32) -> String {
     if upper_pct > 0 && rng.chance(upper_pct, 100) {
         if rng.chance(1, 2) {
@@ -187,6 +230,8 @@ fn case_variant(rng: &mut Rng, w: &str, upper_pct: u32) -> String {
 /// Word-level stream (words and punctuation, optional glue tokens in between).
 pub fn gen_stream(rng: &mut Rng, p: &Pool, cfg: &GenCfg, target_len: usize) -> Vec<TokSpec> {
     let mut words: Vec<&'static str> = Vec::with_capacity(target_len + 8);
+    // generated (non-static) words are parked in `owned`; "\u{1}" marks their place
+    let mut owned: Vec<String> = vec![];
     while words.len() < target_len {
         match rng.weighted(&cfg.w) {
             0 => words.push(rng.word(p.zero)),
@@ -201,7 +246,14 @@ pub fn gen_stream(rng: &mut Rng, p: &Pool, cfg: &GenCfg, target_len: usize) -> V
             9 => words.push(rng.word(p.linking)),
             10 => words.push(rng.word(p.content)),
             11 => words.push(rng.word(p.ambiguous)),
-            12 => words.push(pick_or(rng, p.composite, p.tens)),
+            12 => {
+                if rng.chance(1, 3) {
+                    owned.push(gen_compound(rng, p));
+                    words.push("\u{1}");
+                } else {
+                    words.push(pick_or(rng, p.composite, p.tens))
+                }
+            }
             13 => words.push(rng.word(&PUNCT)),
             15 => gen_number_phrase(rng, p, &mut words),
             _ => words.push(rng.word(p.content)),
@@ -209,11 +261,18 @@ pub fn gen_stream(rng: &mut Rng, p: &Pool, cfg: &GenCfg, target_len: usize) -> V
     }
     words.truncate(target_len);
     let mut out = Vec::with_capacity(words.len() * 2);
+    let mut next_owned = 0usize;
     for (i, w) in words.iter().enumerate() {
         if i > 0 && cfg.glue_pct > 0 && rng.chance(cfg.glue_pct, 100) {
             let g = rng.word(&GLUE);
             out.push(TokSpec { text: g.to_string(), lower: g.to_string(), separated: false, nan: false });
         }
+        let w: &str = if *w == "\u{1}" {
+            next_owned += 1;
+            owned.get(next_owned - 1).map(|s| s.as_str()).unwrap_or("x")
+        } else {
+            w
+        };
         let text = case_variant(rng, w, cfg.upper_pct);
         out.push(TokSpec { lower: text.to_lowercase(), text, separated: false, nan: false });
     }
